@@ -104,6 +104,76 @@ func TestC17(t *testing.T) {
 			e.Ret("h", "Start", o)
 			return
 		}
+		if p.TwoClients && p.TwoConcurrent {
+			var mu sync.Mutex
+			cfg.SkipHostEnv = true
+			secondPrepared := make(chan struct{})
+			n := 0
+			o.TwoLaunchDir, o.TwoLaunchSame = make([]string, 2), make([]bool, 2)
+			sockDir := func(env []string) string {
+				dir := "<unset>"
+				for _, kv := range env {
+					if v, ok := strings.CutPrefix(kv, "PLUGIN_UNIX_SOCKET_DIR="); ok {
+						dir = v
+					}
+				}
+				return dir
+			}
+			cfg.RunnerFunc = func(l hclog.Logger, cmd *exec.Cmd, tmp string) (runner.Runner, error) {
+				mu.Lock()
+				idx := n
+				n++
+				o.TwoTmp = append(o.TwoTmp, tmp)
+				o.TwoEnvDir = append(o.TwoEnvDir, sockDir(cmd.Env))
+				kept, snap := cmd.Env, append([]string(nil), cmd.Env...) // a runner that keeps what it was given
+				mu.Unlock()
+				if idx == 1 {
+					close(secondPrepared)
+				}
+				return vp.NewScriptRunner(func(r *vp.ScriptRunner) {
+					if idx == 0 {
+						select {
+						case <-secondPrepared:
+						case <-time.After(5 * time.Second):
+						}
+					}
+					mu.Lock()
+					if idx < 2 {
+						o.TwoLaunchDir[idx] = sockDir(kept)
+						o.TwoLaunchSame[idx] = fmt.Sprint(kept) == fmt.Sprint(snap)
+					}
+					mu.Unlock()
+					fmt.Fprintf(r.Out, "1|1|unix|%s|netrpc|\n", filepath.Join(tmp, "sock"))
+					<-r.Done()
+				}), nil
+			}
+			hostSets(cfg, "legacy1")
+			cfg.ProtocolVersion, cfg.VersionedPlugins = 1, nil
+			cfg.Plugins = vp.Set("netrpc", 1, []string{"kv"}, nil)
+			a, b := plugin.NewClient(cfg), plugin.NewClient(cfg)
+			errs := make([]string, 2)
+			var wg sync.WaitGroup
+			wg.Add(1)
+			go func() { defer wg.Done(); _, err := a.Start(); errs[0] = errStr(err) }()
+			for i := 0; i < 500; i++ {
+				mu.Lock()
+				k := n
+				mu.Unlock()
+				if k >= 1 {
+					break
+				}
+				time.Sleep(10 * time.Millisecond)
+			}
+			_, err := b.Start()
+			errs[1] = errStr(err)
+			wg.Wait()
+			o.TwoStartErr = errs
+			within(30*time.Second, a.Kill)
+			within(30*time.Second, b.Kill)
+			o.Captured = true
+			e.Ret("h", "Start", o)
+			return
+		}
 		if p.TwoClients {
 			var mu sync.Mutex
 			cfg.RunnerFunc = func(l hclog.Logger, cmd *exec.Cmd, tmp string) (runner.Runner, error) {
